@@ -216,6 +216,10 @@ impl Ctx {
         let t_item = Instant::now();
         let r = catch_unwind(AssertUnwindSafe(|| body(self)));
         CASE_START_MS.store(0, Ordering::SeqCst);
+        if self.samples.is_empty() {
+            // every evidence file shows at least one literal work item of the run
+            self.samples.push(json!({"work_item": desc()}));
+        }
         let ms = t_item.elapsed().as_millis() as i64;
         self.max("item_ms_max", ms);
         if ms > 5000 {
